@@ -220,6 +220,56 @@ theorem saveWF_applyCompute (v v' : Vtf) (filt minor sheetVer : Nat) (h : applyC
       exact this
   · simp [viewOf, viewDepth, hlen, lowOff, headerSize, dataBlocks, sheetBlock, resCount, hasSheetRes, hw, hh]
 
+/-! ## what `compute_mipmaps` generates -/
+
+/-- level `k` obtained from level-0 data `d0` of a `w × h` image by `k` successive `scale_down`s. -/
+def iterScale (filt w h : Nat) (d0 : List Nat) : Nat → List Nat
+  | 0 => d0
+  | k + 1 => (scaleDown filt (w >>> k) (h >>> k) (w >>> (k + 1)) (h >>> (k + 1)) (iterScale filt w h d0 k)).getD []
+
+theorem scaleDown_isSome (filt sw sh w h : Nat) (src : List Nat) (hf : filt ≤ 4) :
+    ∃ out, scaleDown filt sw sh w h src = some out := by
+  unfold scaleDown
+  by_cases h4 : filt < 4
+  · rw [if_pos h4]; exact ⟨_, rfl⟩
+  · have : filt = 4 := by omega
+    rw [if_neg h4, if_pos this]; exact ⟨_, rfl⟩
+
+theorem levelAfter_generated (fr : List (Key × FrameM)) (filt f d a b : Nat) (d0 : List Nat)
+    (hf : filt ≤ 4) :
+    ∀ k, k ≤ min a b →
+      (∀ m, m ≤ k → lookupFrame fr (f, d, m)
+        = some ⟨2 ^ a >>> m, 2 ^ b >>> m, if m = 0 then some d0 else none, none⟩) →
+      levelAfter fr filt f d k
+        = .ok ⟨2 ^ a >>> k, 2 ^ b >>> k, some (iterScale filt (2 ^ a) (2 ^ b) d0 k), none⟩ := by
+  intro k
+  induction k with
+  | zero =>
+    intro _ hl
+    have := hl 0 (Nat.le_refl 0)
+    simp only [if_true] at this
+    simp [levelAfter, this, FrameM.load, iterScale, pure, Except.pure]
+  | succ k ih =>
+    intro hk hl
+    have hprev := ih (by omega) (fun m hm => hl m (by omega))
+    have hcur := hl (k + 1) (Nat.le_refl _)
+    simp only [Nat.succ_ne_zero, if_false] at hcur
+    have ha : k + 1 ≤ a := by omega
+    have hb : k + 1 ≤ b := by omega
+    have hwa : 2 ^ a >>> k = 2 * (2 ^ a >>> (k + 1)) := by
+      rw [shiftRight_two_pow _ _ (by omega), shiftRight_two_pow _ _ ha,
+        show a - k = (a - (k + 1)) + 1 by omega, Nat.pow_succ]; ring
+    have hwb : 2 ^ b >>> k = 2 * (2 ^ b >>> (k + 1)) := by
+      rw [shiftRight_two_pow _ _ (by omega), shiftRight_two_pow _ _ hb,
+        show b - k = (b - (k + 1)) + 1 by omega, Nat.pow_succ]; ring
+    have hok : rescaleOK (2 ^ a >>> (k + 1)) (2 ^ b >>> (k + 1)) (2 ^ a >>> k) (2 ^ b >>> k) = true := by
+      simp [rescaleOK, hwa, hwb]
+    obtain ⟨out, hout⟩ := scaleDown_isSome filt (2 ^ a >>> k) (2 ^ b >>> k) (2 ^ a >>> (k + 1))
+      (2 ^ b >>> (k + 1)) (iterScale filt (2 ^ a) (2 ^ b) d0 k) hf
+    rw [levelAfter, hprev]
+    simp only [hcur, hok, Bool.not_true, Bool.false_eq_true, if_false, Option.getD_some, hout,
+      pure, Except.pure, iterScale]
+
 /-- a small concrete object for non-vacuity: 4×2, BGRA5551 image, BGRA8888 thumbnail (16×16), two
 frames, a byte resource, an inline resource, one sheet sequence; level 0 filled, level 1 cleared. -/
 def exampleVtf : Vtf :=
